@@ -26,6 +26,8 @@ XMLISH = ('xml', 'soap11', 'soap11pp', 'soap12')
 SHAPES = ['m_str', 'm_void', 'm_multi', 'm_obj', 'm_arr', 'm_bare', 'm_gen']
 # the HttpRpc in-protocol used for the GET requests cannot deserialise a bare Unicode parameter (not C09's concern)
 WSGI_SHAPES = [s for s in SHAPES if s != 'm_bare']
+HOOK_SITES = ['call', 'return_object']
+FID_HOOK = 'funnel:listener-outside-try'
 
 # root-cause finding ids (shared by the T1 switch witnesses and the T3 oracle)
 FID_GEN_FIRST = 'wsgi:generator-first-next-unguarded'
@@ -84,8 +86,19 @@ class Impl:
             raise impl.build_exception(ctx, step['raises'])
 
         def body(ctx, conv):
-            plan = box['plan']
-            return run_step(ctx, plan['user']['plain'], conv)
+            u = box['plan']['user']
+            return run_step(ctx, u['plain'] if 'plain' in u else u['hook'][3], conv)
+
+        def make_listener(site, level):
+            def listener(ctx):
+                plan = box['plan']
+                h = plan['user'].get('hook') if plan else None
+                if h and h[0] == site and h[1] == level:
+                    box['ctx'] = ctx
+                    if plan.get('preset'):
+                        ctx.transport.resp_code = plan['preset']
+                    raise impl.build_exception(ctx, h[2])
+            return listener
 
         class S(Service):
             @rpc(Unicode, _returns=Unicode)
@@ -121,6 +134,9 @@ class Impl:
                 yield 'tail'
 
         self.S = S
+        for site in HOOK_SITES:
+            S.event_manager.add_listener('method_' + site, make_listener(site, 'service'))
+        self.make_listener = make_listener
         mk = {'xml': XmlDocument, 'soap11': Soap11, 'soap12': Soap12, 'json': JsonDocument,
               'jsonlist': lambda: JsonDocument(complex_as=list), 'yaml': YamlDocument, 'msgpack': MessagePackDocument,
               'msgpackrpc': MessagePackRpc, 'http': HttpRpc, 'soap11pp': lambda: Soap11(pretty_print=True)}
@@ -129,6 +145,8 @@ class Impl:
         for n in PROTOS:
             out = mk[n]()
             app = Application([S], 'tns', name='App' + n, in_protocol=HttpRpc(), out_protocol=out)
+            for site in HOOK_SITES:
+                app.event_manager.add_listener('method_' + site, make_listener(site, 'application'))
             for ev in ('method_return_object', 'method_exception_object', 'method_redirect', 'method_redirect_exception'):
                 app.event_manager.add_listener(ev, self._snap)
             self.apps[n] = app
@@ -138,6 +156,10 @@ class Impl:
         self.loop = {}
         for n in ('soap11', 'soap12', 'msgpackrpc'):
             app = Application([S], 'tns', name='Loop' + n, in_protocol=mk[n](), out_protocol=mk[n]())
+            for site in HOOK_SITES:
+                app.event_manager.add_listener('method_' + site, make_listener(site, 'application'))
+            for ev in ('method_return_object', 'method_exception_object', 'method_redirect', 'method_redirect_exception'):
+                app.event_manager.add_listener(ev, self._snap)
             w = WsgiApplication(app)
 
             class _RP(RemoteProcedureBase):
@@ -188,7 +210,10 @@ class Impl:
 
     # ---- event listener: the state right after Application.process_request's ladder
     def _snap(self, ctx):
-        if self.box['snap'] is None:      # the first event of the request: the end of process_request's ladder
+        # the state at the end of process_request's ladder: the first funnel event, or the exception event that
+        # follows a method_return_object event when a later (service level) listener of that event raised
+        prev = self.box['snap']
+        if prev is None or (prev[1] is None and prev[0] != 'generator' and ctx.out_error is not None):
             self.box['snap'] = (self.out_object_kind(ctx.out_object), ctx.out_error)
 
     @staticmethod
@@ -470,33 +495,67 @@ def doc_detail(v):
         return uncps(v['s'])
     if isinstance(v, dict) and 'm' in v:
         return [[uncps(k), doc_detail(x)] for k, x in v['m']]
+    if isinstance(v, dict) and 'l' in v:
+        return ('L', [doc_detail(x) for x in v['l']])
     return None
 
 
-# ---- detail dicts: python value <-> comparable nested lists / model JSON
+# ---- detail values: python value <-> comparable form / model JSON
+# comparable form: None | str | [[k, v]...] (a dict, in order) | ('L', [items]) (a list)
+def detail_value(v):
+    if isinstance(v, dict):
+        return [[k, detail_value(x)] for k, x in v.items()]
+    if isinstance(v, (list, tuple)):
+        return ('L', [detail_value(x) for x in v])
+    return v
+
+
 def detail_pairs(d, sort=False):
-    """python detail dict -> [[k, None|str|pairs]…]"""
-    if d is None:
-        return None
-    items = [[k, (detail_pairs(v, sort) if isinstance(v, dict) else v)] for k, v in d.items()]
-    return sorted(items, key=lambda kv: cps(kv[0])) if sort else items
+    """python detail dict -> [[k, value]...]"""
+    return None if d is None else detail_value(d)
+
+
+def _is_list(v):
+    return isinstance(v, tuple) and len(v) == 2 and v[0] == 'L'
 
 
 def pairs_sorted(p):
+    """dict entries sorted by key (stable: the order of repeated keys / list items is kept)"""
     if p is None:
         return None
-    return sorted(([k, pairs_sorted(v) if isinstance(v, list) else v] for k, v in p), key=lambda kv: cps(kv[0]))
+    return sorted(([k, value_sorted(v)] for k, v in p), key=lambda kv: cps(kv[0]))
+
+
+def value_sorted(v):
+    if _is_list(v):
+        return ('L', [value_sorted(x) for x in v[1]])
+    if isinstance(v, list):
+        return pairs_sorted(v)
+    return v
+
+
+def norm_scalar(v, as_item=False):
+    if v is None:
+        return 'None' if as_item else None      # dict_to_etree writes str(e) for a list item
+    if _is_list(v):
+        return None                               # a list inside a list: outside the modelled universe
+    if isinstance(v, list):
+        return norm_pairs(v) if v else None
+    return v if v != '' else None
 
 
 def norm_pairs(p):
-    """what XML can distinguish below the top level: '' = {} = None"""
+    """The specification of what an XML protocol delivers for a detail dict (etree_to_dict reading, flat):
+    '' = {} = [] = None (one empty element), a list of n items = n entries with the same key."""
     out = []
     for k, v in p:
-        if isinstance(v, list):
-            v = norm_pairs(v) if v else None
-        elif v == '':
-            v = None
-        out.append([k, v])
+        if _is_list(v):
+            if not v[1]:
+                out.append([k, None])
+            for item in v[1]:
+                out.append([k, norm_scalar(item, as_item=True)])
+        else:
+            out.append([k, norm_scalar(v)])
     return out
 
 
@@ -511,16 +570,20 @@ def expected_detail(proto, detail, f):
     return p
 
 
+def value_json(v):
+    if v is None:
+        return None
+    if isinstance(v, str):
+        return {'s': cps(v)}
+    if _is_list(v):
+        return {'l': [value_json(x) for x in v[1]]}
+    return {'d': detail_json(v)}
+
+
 def detail_json(p):
     if p is None:
         return None
-    return [[cps(k), (None if v is None else ({'s': cps(v)} if isinstance(v, str) else {'d': detail_json(v)}))] for k, v in p]
-
-
-def detail_unjson(j):
-    if j is None:
-        return None
-    return [[uncps(k), (None if v is None else (uncps(v['s']) if 's' in v else detail_unjson(v['d'])))] for k, v in j]
+    return [[cps(k), value_json(v)] for k, v in p]
 
 
 def fault_json(inst):
@@ -628,7 +691,23 @@ def measure_facts(impl):
     res = impl.run_loop('soap12', 'm_str', C12_NS_WITNESS)
     f['client12Ns'] = 'byNamespace' if (res.get('in_error') is not None and 'client_raised' not in res) else 'literalSoap'
     f['client12Strip'] = measure_strip(impl)
+    covered = []
+    for site in HOOK_SITES:
+        for level in ('application', 'service'):
+            rec = impl.run('json', 'm_str', hook_witness(site, level))
+            d = ref_decode('json', wire_of_body('json', rec['body'])) if 'body' in rec else None
+            if d and d['code'] == 'Client.InvalidCredentialsError' and _status_int(rec.get('status')) == 401:
+                covered.append((site, level))
+    f['hooksInTry'] = covered
     return f
+
+
+def hook_witness(site, level):
+    return {'user': {'hook': [site, level, {'native': ['InvalidCredentialsError', ['Unknown session', {'user': 'mallory'}]]},
+                              {'value': 'RetMarkWitness'}]}, 'marker': 'RetMarkWitness'}
+
+
+ALL_HOOKS = [(s_, l_) for s_ in HOOK_SITES for l_ in ('application', 'service')]
 
 
 PRESET_WITNESS = {'preset': '418 Teapot', 'user': {'plain': {'raises': {'fault': {'cls': 'Fault', 'code': 'Client.P', 'str': 's'}}}}}
@@ -665,6 +744,7 @@ namespace SpyneModel.Generated
 open SpyneModel SpyneModel.Faults
 
 def facts09 : Facts09 where
+  hooksInTry := [%s]
   dedTable := [%s]
   clientTest := .%s
   clientStatus := %d
@@ -683,13 +763,14 @@ def facts09 : Facts09 where
   client12Strip := %s
 
 end SpyneModel.Generated
-''' % (', '.join('(.%s, %d)' % kv for kv in f['dedTable']), f['clientTest'], max(f['clientStatus'], 0), max(f['defaultStatus'], 0),
+''' % (', '.join('(.%s, .%s)' % ({'call': 'methodCall', 'return_object': 'returnObject'}[a], b) for a, b in f['hooksInTry']),
+       ', '.join('(.%s, %d)' % kv for kv in f['dedTable']), f['clientTest'], max(f['clientStatus'], 0), max(f['defaultStatus'], 0),
        'none' if f['soapStatus'] is None else 'some %d' % f['soapStatus'], lean_text(f['genericCode']), fs,
        b(f['errorPathKeepsStatus']), lean_text(f['env11Prefix']), lean_text(f['env12Prefix']), b(f['ignoreEmptyActor']),
        f['soap12Detail'], b(f['genFirstGuarded']), f['serErr'], f['client12Ns'], b(f['client12Strip']))
 
 
-GOOD = {'dedTable': [('tooLong', 413), ('notFound', 404), ('notAllowed', 405), ('invalidCred', 401)],
+GOOD = {'hooksInTry': ALL_HOOKS, 'dedTable': [('tooLong', 413), ('notFound', 404), ('notAllowed', 405), ('invalidCred', 401)],
         'clientTest': 'eqOrDotPrefix', 'clientStatus': 400, 'defaultStatus': 500, 'soapStatus': 500, 'genericCode': 'Server',
         'faultString': ('constant', 'Internal Error'), 'errorPathKeepsStatus': True, 'env11Prefix': 'soap11env',
         'env12Prefix': 'soap12env', 'soap12Detail': 'children', 'genFirstGuarded': True, 'serErr': 'funnelled',
@@ -795,10 +876,22 @@ def g_detail(rng, proto, depth=0):
             v = ''
         elif r < 0.72:
             v = {}
+        elif r < 0.86:
+            v = [g_item(rng, proto, depth) for _ in range(rng.choice([0, 1, 2, 2, 3, 4]))]
         else:
             v = g_detail(rng, proto, depth + 1)
         d[k] = v
     return d
+
+
+def g_item(rng, proto, depth):
+    """an item of a list value: a string or a dict (what dict_to_etree handles structurally)"""
+    r = rng.random()
+    if r < 0.55 or depth >= 3:
+        return g_message(rng, proto, edges=False) or rng.choice(['x', ''])
+    if r < 0.62:
+        return {}
+    return g_detail(rng, proto, depth + 1)
 
 
 def g_fault_spec(rng, impl, proto):
@@ -857,7 +950,9 @@ def g_raised(rng, impl, proto, in_generator=False):
 
 def g_plan(rng, impl, proto, shape):
     marker = 'RetMark' + g_token(rng)
-    if shape == 'm_gen':
+    if shape != 'm_gen' and rng.random() < 0.3:
+        user = {'hook': [rng.choice(HOOK_SITES), rng.choice(['application', 'service']), g_raised(rng, impl, proto), {'value': marker}]}
+    elif shape == 'm_gen':
         r = rng.random()
         if r < 0.45:
             user = {'gen': [{'raises': g_raised(rng, impl, proto, True)}, None]}
@@ -888,7 +983,9 @@ def fixed_cases(impl):
     rs = [F(), F(code='Server'), F(code='Client.'), F(code='Client.a'), F(code='Server.a.b.c.d.e.f'), F(code='Clientx'), F(code='client.a'),
           F(str=''), F(str=' sp '), F(str='<&>"\''), F(str='line1\nline2'), F(str='a\n\nb'), F(str='é中😀'),
           F(detail={}), F(detail={'a': 'b'}), F(detail={'a': 'b', 'c': {'d': 'e'}}), F(detail={'a': None, 'b': '', 'c': {}}),
-          F(detail={'a': {'b': {'c': {'d': 'deep'}}}}), F(actor='http://actor/'), F(cls='GenFault', code='Server.Gen'),
+          F(detail={'a': {'b': {'c': {'d': 'deep'}}}}), F(detail={'d': ['x', 'y']}), F(detail={'d': ['only']}),
+          F(detail={'d': [{'a': '1'}, {'b': '2'}], 'e': [], 'f': ['', 'z']}), F(detail={'a': {'l': ['p', {'q': ['r', 's', 't']}, {}]}}),
+          F(actor='http://actor/'), F(cls='GenFault', code='Server.Gen'),
           F(cls='Gen_notFound', code='Server.Odd'), F(cls='GenGen_tooLong', code='Client.Big'), F(cls='Multi_notFound_tooLong'),
           F(cls='Multi_invalidCred_notAllowed', code='Server'), F(cls='Multi_ArgumentError_notFound', code='Client.ArgumentError'),
           F(cls='RequestNotAllowed', code='Whatever'), F(cls='InvalidCredentialsError', code='Server.Cred', detail={'realm': 'r'}),
@@ -910,6 +1007,13 @@ def fixed_cases(impl):
             out.append(('m_gen', {'user': {'gen': [{'value': marker}, r]}, 'marker': marker}))
         if i % 5 == 0 and 'redirect' not in r:
             out.append((SHAPES[1 + (i // 5) % 5], {'user': {'plain': {'raises': r}}, 'marker': marker}))
+    for i, r in enumerate(rs):
+        if i % 4 == 0 or 'other' in r or 'native' in r:
+            for j, (site, level) in enumerate([(a, b) for a in HOOK_SITES for b in ('application', 'service')]):
+                if (i + j) % 2 == 0 or 'other' in r:
+                    marker = 'RetMarkZqHook%03d%dXv' % (i, j)
+                    shape = 'm_str' if ('redirect' in r or j % 2 == 0) else SHAPES[1 + (i + j) % 4]
+                    out.append((shape, {'user': {'hook': [site, level, r, {'value': marker}]}, 'marker': marker}))
     out.append(('m_str', {'user': {'plain': {'value': 'RetMarkZqFixedOkXv'}}, 'marker': 'RetMarkZqFixedOkXv'}))
     out.append(('m_gen', {'user': {'gen': [{'value': 'RetMarkZqFixedOkXv'}, None]}, 'marker': 'RetMarkZqFixedOkXv'}))
     out.append(('m_str', {'user': {'plain': {'raises': F(code='Client.Pre')}}, 'marker': 'RetMarkZqFixedPreXv', 'preset': '418 Teapot'}))
@@ -938,7 +1042,10 @@ def plan_allowed(proto, plan, via='wsgi'):
 def raised_of(plan):
     u = plan['user']
     out = []
-    if 'plain' in u:
+    if 'hook' in u:
+        site, level, r, body = u['hook']
+        out.append(body['raises'] if (site == 'return_object' and 'raises' in body) else r)
+    elif 'plain' in u:
         if 'raises' in u['plain']:
             out.append(u['plain']['raises'])
     else:
@@ -970,6 +1077,9 @@ def user_json(impl, plan, insts):
 
     if 'plain' in u:
         return {'plain': step(u['plain'], insts[0] if insts else None)}
+    if 'hook' in u:
+        site, level, r, body = u['hook']
+        return {'hook': [site, level, raised_json(impl, r, insts[0] if insts else None), step(body, None)]}
     first, later = u['gen']
     if 'raises' in first:
         return {'gen': [step(first, insts[0] if insts else None), None]}
@@ -1001,17 +1111,19 @@ class Oracle:
         case = {'via': via, 'proto': proto, 'shape': shape, 'plan': plan}
         rs = raised_of(plan)
         u = plan['user']
-        where = 'plain' if 'plain' in u else ('gen-first' if 'raises' in u['gen'][0] else 'gen-later')
+        where = where_of(u)
         if not rs or rs[0].get('redirect', 1) is None:
             # control: nothing raised (or a successful redirect) -> 200 class response, no fault
             if 'escaped' in rec:
-                self.fail('control:escaped:' + proto, 'a method that raises nothing makes the WSGI app raise %r' % rec['escaped'], case)
+                self.fail(FID_HOOK if (where.startswith('listener') and len(self.facts['hooksInTry']) < 4) else 'control:escaped:' + proto, 'a method that raises nothing makes the WSGI app raise %r' % rec['escaped'], case)
             return
         r = rs[0]
         if 'escaped' in rec:
             e = rec['escaped']
             fid = 'escape:%s:%s:%s' % (proto, where, type(e).__name__ if 'other' not in r else 'other')
-            if where == 'gen-first' and not self.facts['genFirstGuarded']:
+            if where.startswith('listener') and len(self.facts['hooksInTry']) < 4:
+                fid = FID_HOOK
+            elif where == 'gen-first' and not self.facts['genFirstGuarded']:
                 fid = FID_GEN_FIRST
             elif MODEL_PROTO[proto] == 'soap12' and isinstance(e, AssertionError) and self.facts['soap12Detail'] != 'children':
                 fid = FID_S12_DETAIL
@@ -1106,6 +1218,8 @@ class Oracle:
             return
         u = plan['user']
         gen_later = 'gen' in u and 'value' in u['gen'][0]
+        if 'escaped' in http:
+            return
         lf = FID_SER_ERR if (gen_later and self.facts['serErr'] != 'funnelled') else None
         ie = res.get('in_error')
         if ie is None:
@@ -1137,6 +1251,14 @@ class Oracle:
                 self.fail(lf or 'client:%s:detail' % proto, 'the client holds detail %r for the raised %r' % (gotd, exp), case)
 
 
+def where_of(u):
+    if 'plain' in u:
+        return 'plain'
+    if 'hook' in u:
+        return 'listener-%s-%s' % (u['hook'][0], u['hook'][1])
+    return 'gen-first' if 'raises' in u['gen'][0] else ('gen-later' if u['gen'][1] is not None else 'gen-ok')
+
+
 def kind_of(r):
     return 'Fault' if ('fault' in r or 'native' in r) else ('Redirect' if 'redirect' in r else 'non-Fault exception')
 
@@ -1151,18 +1273,7 @@ def status_class(impl, inst):
 
 
 # ------------------------------------------------------------------------------------ run
-def load_local_known(ctx):
-    """fixes/C09-known.json is merged into known_findings.json centrally; until then read it here"""
-    p = os.path.join(core.VERIF, 'fixes', 'C09-known.json')
-    if os.path.exists(p):
-        have = {k.get('id') for k in ctx.known_findings}
-        for k in json.load(open(p)):
-            if k.get('property') == ctx.prop and k.get('id') not in have:
-                ctx.known_findings.append(k)
-
-
 def run(ctx):
-    load_local_known(ctx)
     impl = Impl()
     rng = ctx.rng
 
@@ -1173,7 +1284,13 @@ def run(ctx):
     for k, good in GOOD.items():
         if f[k] != good:
             ctx.hit('fact-bad:' + k)
-            if k in SWITCH:
+            if k == 'hooksInTry':
+                site, level = [h for h in ALL_HOOKS if h not in f[k]][0]
+                ctx.finding(FID_HOOK, 'an exception raised by a method_%s listener (%s level) does not go through process_request\'s except '
+                            'ladder: a Fault (e.g. InvalidCredentialsError from an authentication hook) is not answered as that fault and a '
+                            'non-Fault exception escapes raw [listener calls inside the try block: %r]' % (site, level, f[k]),
+                            {'case': {'via': 'wsgi', 'proto': 'json', 'shape': 'm_str', 'plan': hook_witness(site, level)}, 'fact': k})
+            elif k in SWITCH:
                 fid, (via, proto, shape, plan), text = SWITCH[k]
                 ctx.finding(fid, '%s [behaviour switch %s measured %r, good: %r]' % (text, k, f[k], good),
                             {'case': {'via': via, 'proto': proto, 'shape': shape, 'plan': plan}, 'fact': k, 'measured': f[k]})
@@ -1276,7 +1393,8 @@ def run(ctx):
     ctx.cov['rule'] = ('cases = (output protocol, method shape, plan) where the plan says what the user code raises (Fault of a built-in or '
                        'generated class with generated dotted code / Unicode message / nested detail dict, built-in error through its own '
                        'constructor, Redirect, non-Fault exception carrying fresh secret tokens in type name, module, text, notes, cause and '
-                       'traceback function names) and where (plain method of 6 signatures, generator before / after its first yield), run '
+                       'traceback function names; detail = nested dicts and lists) and where (plain method of 6 signatures, generator before / after its first '
+                       'yield, method_call / method_return_object listener at application / service level), run '
                        'through the real WsgiApplication under 10 output protocol configurations and through the SOAP 1.1 / 1.2 / '
                        'MessagePackRpc loopback clients; plus the exhaustive class x code-shape status table; boundary plans first, then '
                        'seeded random; distinct = distinct canonical model query; non-trivial = everything except the status probes of '
@@ -1286,7 +1404,7 @@ def run(ctx):
 def run_case(ctx, impl, oracle, add, via, proto, shape, plan, rec, insts):
     mp = MODEL_PROTO[proto]
     u = plan['user']
-    where = 'plain' if 'plain' in u else ('gen-first' if 'raises' in u['gen'][0] else ('gen-later' if u['gen'][1] is not None else 'gen-ok'))
+    where = where_of(u)
     rs = raised_of(plan)
     ctx.hit('proto:' + proto)
     ctx.hit('where:' + where)
@@ -1297,6 +1415,8 @@ def run_case(ctx, impl, oracle, add, via, proto, shape, plan, rec, insts):
     # T2: funnel state right after process_request
     uj = user_json(impl, plan, insts)
     snap = rec.get('snap')
+    if snap is None and 'escaped' in rec and 'hook' in u:
+        add({'op': 'process', 'user': uj}, {'escapes': True})
     if snap is not None:
         kind, err = snap
         add({'op': 'process', 'user': uj},
@@ -1372,6 +1492,8 @@ def norm_answer(a):
         a['ok']['detail'] = sort_detail_json(a['ok'].get('detail'))
     if isinstance(a.get('ok'), dict) and 'detail' in a['ok']:
         a['ok']['detail'] = sort_detail_json(a['ok'].get('detail'))
+    if a.get('out_object') == 'nonelist':
+        a['out_object'] = 'value'         # [None]: a None return value and the state after a redirect look the same
     oe = a.get('out_error')
     if isinstance(oe, dict):
         oe['f']['detail'] = sort_detail_json(oe['f'].get('detail'))
@@ -1381,7 +1503,15 @@ def norm_answer(a):
 def sort_detail_json(j):
     if j is None:
         return None
-    return sorted(([k, (v if (v is None or 's' in v) else {'d': sort_detail_json(v['d'])})] for k, v in j), key=lambda kv: kv[0])
+    return sorted(([k, sort_value_json(v)] for k, v in j), key=lambda kv: kv[0])
+
+
+def sort_value_json(v):
+    if v is None or 's' in v:
+        return v
+    if 'l' in v:
+        return {'l': [sort_value_json(x) for x in v['l']]}
+    return {'d': sort_detail_json(v['d'])}
 
 
 def show_query(q):
